@@ -3,8 +3,8 @@
     The model (Kbuild/Model.v) is the repaired FindRedirects: a function of the source tree (list of
     files in walk order, each with its parsed declarations), so the same tree always gives the same
     table; what the theorems add is WHICH table. *)
-From Coq Require Import NArith List Sorted.
-From FF Require Import Gen.Consts_kbuild Kbuild.Model Kbuild.Proofs.
+From Coq Require Import NArith List Sorted Permutation.
+From FF Require Import Gen.Consts_kbuild Kbuild.Model Kbuild.Proofs Kbuild.Baseline Kbuild.BaselineProofs.
 Import ListNotations.
 Local Open Scope N_scope.
 
@@ -85,3 +85,23 @@ Theorem C20_trim_space :
     (match rev (trim_space s) with [] => True | c :: _ => is_space c = false end).
 Proof. exact trim_space_spec. Qed.
 Print Assumptions C20_trim_space.
+
+(** ---- the code before the repair (5ad9c86), for the record ----
+    It visited a file's declarations in Go-map order, modelled as an arbitrary permutation [sigma] of
+    the declarations chosen anew on every run (Kbuild/Baseline.v).  The content of its table was
+    right for every sigma ... *)
+Theorem C20_baseline_content :
+  forall (sigma : list decl -> list decl) (t : tree),
+    (forall ds, Permutation (sigma ds) ds) ->
+    Permutation (find_redirects_baseline sigma t) (find_redirects t).
+Proof. exact baseline_content. Qed.
+Print Assumptions C20_baseline_content.
+
+(** ... but two runs (two sigmas) could give different tables: "same table in the same order" was false;
+    the repaired code is [find_redirects_baseline] with sigma = identity, i.e. [find_redirects]. *)
+Theorem C20_baseline_order_refuted :
+  exists (t : tree) (s1 s2 : list decl -> list decl),
+    (forall ds, Permutation (s1 ds) ds) /\ (forall ds, Permutation (s2 ds) ds) /\
+    find_redirects_baseline s1 t <> find_redirects_baseline s2 t.
+Proof. exact baseline_order_refuted. Qed.
+Print Assumptions C20_baseline_order_refuted.
